@@ -43,6 +43,27 @@ var c18Texts = []string{
 	"Ünïcödé çà et là", "Příliš žluťoučký kůň", "ΑΒΓ αβγ", "1234567890", "a", "mm ii WW", "x (y) [z] {w} \\ /", "Tj TJ () \\n", "naïve café — “quoted” … ½",
 }
 
+var c18AstralCache = map[int][]rune{}
+
+// c18Astral lists the characters beyond U+FFFF that font i has glyphs for (a fixed scan order).
+func c18Astral(i int) []rune {
+	if rs, ok := c18AstralCache[i]; ok {
+		return rs
+	}
+	c13LoadFonts()
+	var rs []rune
+	if fam := c13Fonts[i]; fam != nil {
+		sf := fam.Face(10, canvas.Black, canvas.FontRegular, canvas.FontNormal).Font.SFNT
+		for r := rune(0x10000); r < 0x20000 && len(rs) < 400; r++ {
+			if sf.GlyphIndex(r) != 0 {
+				rs = append(rs, r)
+			}
+		}
+	}
+	c18AstralCache[i] = rs
+	return rs
+}
+
 func genC18(kind string) func(r *core.Rng) any {
 	return func(r *core.Rng) any {
 		c := &c18Case{Kind: kind, Font: r.Intn(3), Size: core.PickF(r, []float64{12, 10, 24, r.Range(5, 40)}), Subset: r.Bool(), Compress: r.Bool()}
@@ -62,6 +83,23 @@ func genC18(kind string) func(r *core.Rng) any {
 			// Greek is missing from the two CFF fonts; mixed-script text with missing glyphs is pinned by
 			// finding F-C18-textwidth-script-runs
 			c.Text = strings.ReplaceAll(c.Text, "ΑΒΓ αβγ", "abc ABC")
+		}
+		if kind == "astral" {
+			// characters beyond the Basic Multilingual Plane (mathematical alphanumerics in DejaVu Serif,
+			// regional indicators in EB Garamond): ToUnicode needs surrogate pairs
+			c.Font = r.Intn(2)
+			c.Text = ""
+			avail := c18Astral(c.Font)
+			for k := r.IntRange(1, 6); k > 0; k-- {
+				if len(avail) > 0 && r.Chance(0.7) {
+					c.Text += string(avail[r.Intn(len(avail))])
+				} else {
+					c.Text += core.PickS(r, []string{"x", " ", "ab"})
+				}
+			}
+			if c.Font != 0 {
+				c.Subset = true
+			}
 		}
 		if kind == "marks" {
 			// combining marks without precomposed forms: the shaper positions them with glyph offsets
@@ -674,6 +712,7 @@ func init() {
 			{Name: "texts", Quick: 600, Thorough: 20000, Gen: genC18("texts")},
 			{Name: "justified", Quick: 300, Thorough: 8000, Gen: genC18("justified")},
 			{Name: "vertical", Quick: 200, Thorough: 4000, Gen: genC18("vertical"), Note: "the same font used for horizontal text and for rotated text of a vertical writing mode in one document"},
+			{Name: "astral", Quick: 200, Thorough: 3000, Gen: genC18("astral"), Note: "characters beyond U+FFFF: ToUnicode entries are surrogate pairs"},
 			{Name: "marks", Quick: 200, Thorough: 3000, Gen: genC18("marks"), Note: "combining marks positioned by glyph offsets (GPOS mark-to-base)"},
 			{Name: "upright", Quick: 100, Thorough: 1000, Gen: genC18("upright"), WitnessOnly: true, Note: "upright glyphs in a vertical writing mode: the glyphs advance vertically in the layout, but the font is embedded with encoding Identity-H and without vertical metrics (W2/DW2), so a reader advances them horizontally"},
 			{Name: "cff-full", Quick: 100, Thorough: 1000, Gen: genC18("cff-full"), WitnessOnly: true, Note: "CFF fonts embedded without subsetting: character codes are the subsetter's codes and a CIDToGIDMap is written, but for a CIDFontType0 with a non-CID-keyed CFF program a reader takes the CID as the glyph index, so every glyph but .notdef selects a different outline"},
